@@ -142,6 +142,13 @@ CHECKS = {
         "litdata hand-over uses litdata's in-process BinaryWriter (optimize() workers do not complete offline); quick grid is a strength-2 covering array, not the full product",
         "DESIGN.md §3 C18",
     ),
+    "C04": (
+        "exploration",
+        "exhaustive enumeration of the size x max-size x scale x stride x crop x centroid-position grid and of the 81 forced affine-parameter corners (kornia generator behind a seam), functional API and the four Dataset classes end to end, with a blind blob-registration oracle",
+        "Every point of the stated grid is executed on the real functions and on the real Dataset classes built on synthetic lossless labels; frames carry one Gaussian blob per keypoint and a sub-pixel locator that does not know which transform ran must find a blob within 1 output px of every returned keypoint (and a keypoint for every blob); sizes exact, padding only bottom/right, intensity-only augmentation returns keypoints bit-equal. The random affine generator is replaced by the enumerated corner values, so the augmentation space is enumerated, not sampled. Known findings K4/K6 are matched by predictive signatures (measured error within 0.15 px of the half-pixel model). exhaustive: true within the grid.",
+        "grid values are the bound; the affine space is represented by its 81 corners; blob sigma >= 1 output px",
+        "DESIGN.md §3 C04",
+    ),
 }
 
 NOT_YET = {}
